@@ -18,11 +18,20 @@ let expect_conn (proceed : bool) (steps : string) : string * string =
     (resps ^ "|" ^ fin, hooks)
   end
 
-let eval case impl =
+let contains_sub (s : string) (sub : string) : bool =
+  try ignore (Str.search_forward (Str.regexp_string sub) s 0); true with Not_found -> false
+
+let eval case0 impl =
+  (* optional thread-count prefix *)
+  let case = match String.index_opt case0 '!' with
+    | Some i when String.length case0 > 0 && case0.[0] = 'T' -> String.sub case0 (i + 1) (String.length case0 - i - 1)
+    | _ -> case0 in
+  (* histories with routes the application model does not have (interim responses): the three modes are compared with each other only *)
+  let differential = contains_sub case (hex_of_bytes (bytes_of_string "/cont")) in
   let conns = List.map (fun c -> match String.index_opt c ':' with
       | Some i -> (String.sub c 0 i <> "X", String.sub c (i + 1) (String.length c - i - 1))
       | None -> failwith "bad conn") (split_on '/' case) in
-  let expected = List.map (fun (p, s) -> expect_conn p s) conns in
+  let expected = if differential then [] else List.map (fun (p, s) -> expect_conn p s) conns in
   let exp_line mode =
     Printf.sprintf "mode=%s conns=[%s] returned=1" mode
       (String.concat "|" (List.map (fun (t, h) -> t ^ "#hooks=" ^ h) expected)) in
@@ -58,24 +67,34 @@ let eval case impl =
   let mode_ok (cs, tail, _) =
     List.length cs = List.length exp_cs && String.trim tail = "returned=1" in
   let transcripts_of (cs, _, _) = List.map fst cs and hooks_of (cs, _, _) = List.map snd cs in
+  let mode_ok m = if differential then (let (cs, tail, _) = m in List.length cs = List.length conns && String.trim tail = "returned=1") else mode_ok m in
+  let all_same f = (match parsed with a :: rest -> List.for_all (fun p -> f p = f a) rest | [] -> false) in
   let c17 =
-    List.length parsed = 3 && List.for_all mode_ok parsed &&
-    (match parsed with a :: rest -> List.for_all (fun p -> transcripts_of p = transcripts_of a) rest | [] -> false) &&
-    List.for_all (fun p -> transcripts_of p = List.map fst exp_cs) parsed in
-  let c16 = List.length parsed = 3 && List.for_all mode_ok parsed && List.for_all (fun p -> hooks_of p = List.map snd exp_cs) parsed in
+    List.length parsed = 3 && List.for_all mode_ok parsed && all_same transcripts_of &&
+    (differential || List.for_all (fun p -> transcripts_of p = List.map fst exp_cs) parsed) in
+  let hook_shape h = (* S, then P's, then exactly one T(..) *)
+    (match split_on ',' h with
+     | "S" :: rest -> (match List.rev rest with
+         | t :: ps -> String.length t > 2 && String.sub t 0 2 = "T(" && List.for_all (fun x -> x = "P") ps
+         | [] -> false)
+     | _ -> false) in
+  let c16 = List.length parsed = 3 && List.for_all mode_ok parsed &&
+            (if differential then all_same hooks_of && List.for_all (fun p -> List.for_all hook_shape (hooks_of p)) parsed
+             else List.for_all (fun p -> hooks_of p = List.map snd exp_cs) parsed) in
   let model = String.concat " ## " (List.map (fun m -> exp_line m) ["pool"; "threaded"; "epoll"]) in
   (* recorded finding F28: a connection the client keeps open across StopAccepting is abandoned by serve_epoll:
      its teardown hook never runs.  Trigger: the history has a K connection and only the epoll mode's hook log
      of that connection lacks the teardown entry. *)
-  let has_kept = List.exists (fun c -> String.length c > 1 && String.sub c 0 2 = "K:") (split_on '/' case) in
+  let is_kept c = String.length c > 1 && (String.sub c 0 2 = "K:" || String.sub c 0 2 = "Q:") in
+  let has_kept = List.exists is_kept (split_on '/' case) in
   let f28 =
-    (not c16) && has_kept && List.length parsed = 3 &&
+    (not c16) && (not differential) && has_kept && List.length parsed = 3 &&
     (match parsed with
      | [p; t; e] ->
        mode_ok p && mode_ok t && hooks_of p = List.map snd exp_cs && hooks_of t = List.map snd exp_cs &&
        List.for_all2 (fun (et, eh) ((_, ih), c) ->
            ignore et;
-           if String.length c > 1 && String.sub c 0 2 = "K:" then ih = eh || ih ^ ",T(ok)" = eh else ih = eh)
+           if is_kept c then ih = eh || ih ^ ",T(ok)" = eh else ih = eh)
          exp_cs (List.combine (let (cs, _, _) = e in cs) (split_on '/' case))
      | _ -> false) in
   ((if c16 && c17 then impl else model), (if c16 then [] else [("C16", if f28 then "F28" else "-")]) @ (if c17 then [] else [("C17", "-")]))
